@@ -372,6 +372,55 @@ def run_C20(ctx, model_available=True):
                                                       " ".join("%d %s" % (m.market_id, fbits(m.get_market_price())) for m in mks)))
         expects.append(("arb", [(o.market_id, o.is_buy, o.price, o.volume, o.ttl) for o in orders], inp, False))
 
+    # ---- arbitrage over two index markets in one activation: each index is judged on its own gap ---------
+    for i in range(60 * scale):
+        n = rng.choice([2, 3])
+        sim, mks, idx = mk_world(rng, n, index=True)
+        idx2 = IndexMarket(market_id=n + 1, prng=random.Random(98), simulator=sim, name="idx2")
+        idx2.setup({"tickSize": 0.01, "marketPrice": 300.0, "outstandingShares": 1000, "markets": [m.name for m in mks]})
+        sim._add_market(idx2, group_name="i2")
+        idx2._is_running = True
+        sim._update_times_on_markets([idx2])
+        a = ArbitrageAgent(agent_id=5, prng=random.Random(2), simulator=sim, name="arb")
+        for mid in range(n + 2):
+            a.set_market_accessible(mid)
+        a.order_volume = rng.choice([1, 2])
+        a.order_time_length = 2
+        a.order_threshold_price = rng.choice([0.5, 1.0, 2.0])
+        for m in mks:
+            trade(m, round(rng.uniform(250, 350), 2))
+        index = idx.get_index()
+        gaps = {}
+        for im, mode in ((idx, rng.choice(["beyond+", "beyond-", "within", "within"])), (idx2, rng.choice(["within", "within", "beyond+", "beyond-"]))):
+            k = {"beyond+": rng.uniform(1.5, 3), "beyond-": -rng.uniform(1.5, 3), "within": rng.uniform(-0.9, 0.9)}[mode]
+            trade(im, index + k * a.order_threshold_price)
+            gaps[im.market_id] = im.get_market_price() - im.get_index()
+        order_of_markets = list(sim.markets) if rng.random() < 0.5 else [m for m in sim.markets if m is not idx2][:n] + [idx2, idx]
+        inp = {"kind": "arb2", "threshold": a.order_threshold_price, "gaps": {str(k): v for k, v in gaps.items()},
+               "markets_order": [m.market_id for m in order_of_markets]}
+        seen.add(digest(inp))
+        nontriv.add(digest(inp))
+        orders = a.submit_orders(markets=order_of_markets)
+        checks += 1
+        well_formed(orders, a, set(range(n + 2)), inp, violations)
+        for im in (idx, idx2):
+            legs = [o for o in orders if o.market_id == im.market_id]
+            acts = abs(gaps[im.market_id]) > a.order_threshold_price
+            if abs(abs(gaps[im.market_id]) - a.order_threshold_price) < 1e-9:
+                continue
+            if bool(legs) != acts:
+                add_v(viol("C20/arb-acts-iff-gap-exceeds-threshold", "an arbitrage agent acts only when index price and computed index differ by more than its threshold (judged per index market)",
+                           {"index_market": im.market_id, "gap": gaps[im.market_id], "threshold": a.order_threshold_price,
+                            "index_legs": [(o.is_buy, o.volume) for o in legs]}, inp))
+            elif legs and legs[0].is_buy != (gaps[im.market_id] < 0):
+                add_v(viol("C20/arb-basket-not-hedged", "buys the index when it is below the computed index, sells it when above",
+                           {"index_market": im.market_id, "gap": gaps[im.market_id], "index_leg_is_buy": legs[0].is_buy}, inp))
+        n_acting = sum(1 for im in (idx, idx2) if abs(gaps[im.market_id]) > a.order_threshold_price + 1e-9)
+        comp_legs = [o for o in orders if o.market_id < n]
+        if all(abs(abs(g) - a.order_threshold_price) >= 1e-9 for g in gaps.values()) and len(comp_legs) != n * n_acting:
+            add_v(viol("C20/arb-basket-not-hedged", "one component order per component for each index acted on",
+                       {"component_legs": len(comp_legs), "indices_acted_on": n_acting, "components": n}, inp))
+
     compared = 0
     max_rel = 0.0
     if model_available:
